@@ -1,3 +1,4 @@
+import Rawr.Proofs.RustImpAgree_Eval
 import Rawr.Proofs.RustSearchAgree_Sort
 import Rawr.Proofs.RustImpAgree_MakeMove
 import Rawr.Proofs.RustImpAgree_MoveGen
